@@ -1,6 +1,7 @@
 import Driver.Util
 import Driver.DicOps
 import Chokan.Model.Skk
+import Chokan.Model.SkkNotes
 
 namespace Driver
 open Chokan Chokan.Dic Chokan.Skk
@@ -20,6 +21,13 @@ def skkOps (op : String) (arg : String) : Option String :=
   | "skknoun" => some (showConv (parseNouns line))
   | "skkproper" => some (showConv (parsePropers line))
   | "skktankan" => some (showConv (parseTankan line))
+  | "skknote" => some (match Chokan.SkkNotes.parseNote line with
+      | .err => "err"
+      | .none => "none"
+      | .note n => match Chokan.SkkNotes.noteToEntries n with
+        | .ok es => if es.isEmpty then "some" else "some " ++ " ;; ".intercalate (es.map showEntry)
+        | .unsupported => "unsupported"
+        | .panic => "panic-convert")
   | _ => none
 
 end Driver
